@@ -383,12 +383,6 @@ Proof. induction l1 as [|y r IH]; intros H; [exact H|]. cbn [app] in H. inversio
 
 (* ---------------------------------------------------------------- what an image shows (as in Properties_C01.v) *)
 Definition console_input (inp : list Z) : inputs := {| console := inp; files := fun _ => [] |}.
-Fixpoint writes (evs : list event) : list (Z * Z) :=
-  match evs with
-  | [] => []
-  | Write b st :: r => (st, b) :: writes r
-  | _ :: r => writes r
-  end.
 Definition isa_shows (img : list Z) (inp : list Z) (n : nat) (b : behaviour) : Prop :=
   match Isa.run n (boot img) (console_input inp) [] with
   | (evs, inp', _, Exited c) =>
@@ -398,8 +392,8 @@ Definition isa_shows (img : list Z) (inp : list Z) (n : nat) (b : behaviour) : P
   | _ => False
   end.
 
-Lemma writes_wr_ev outs c : writes (map wr_ev outs ++ [Exit c]) = outs.
-Proof. induction outs as [|[st b] r IH]; cbn [map app writes wr_ev fst snd]; [reflexivity | rewrite IH; reflexivity]. Qed.
+Lemma writes_exit outs c : writes (outs ++ [Exit c]) = writes outs.
+Proof. rewrite writes_app. cbn [writes]. apply app_nil_r. Qed.
 
 Lemma wrap_id a : 0 <= a < MEMW -> wrap a = a.
 Proof. intros H. unfold wrap. apply Z.mod_small. unfold MEMW, W in *. lia. Qed.
@@ -642,37 +636,37 @@ Section Run.
     (* main, called from the root frame *)
     assert (Hko : koff pi_main = 1) by (unfold koff, pi_main; cbn [pf_isfunc]; rewrite Hpm1; reflexivity).
     pose proof (call_ok ge gaddr aaddr abase alen_of pool Pw m0 lab pinfo nwords stack_hi maxframe H1 H2 H3 H4 H5 H6 H7 H8 H9 H10 H11 fuel pr_root [] [] L_root sp0 root_frame
-                  "main" pi_main [] (state0 steps) m0 q 0 cin Hpi (root_rel steps)) as R.
+                  "main" pi_main [] (state0 steps) m0 q 0 cin Hpi (root_rel steps) eq_refl) as R.
     specialize (R ltac:(intros i v Hi; destruct i; discriminate Hi) ltac:(rewrite Hko; cbn; lia) ltac:(lia)).
     cbn [pf_isfunc pf_entry pi_main] in R. rewrite Hpm1 in R.
     destruct (invoke (exec fuel ge) ge false "main" [] (state0 steps)) as [v s|c s|u]; cbn [ret_ok] in R; [| |discriminate Hb].
     - (* main returns: the exit stub *)
       destruct R as (outs & a1 & b1 & m1 & R1 & HR1 & P1 & _).
-      destruct HR1 as (HC1 & HS1 & _). destruct P1 as (Po & _ & Pn & _). cbn [out_rev ncons state0] in Po, Pn.
+      destruct HR1 as (HC1 & HS1 & _). destruct P1 as (Po & Pn & _). cbn [out_rev ncons input state0] in Po, Pn.
       assert (Sin : in_mem (sp0 + 2) = true) by (apply in_mem_of; unfold MEMW in *; lia).
       assert (Sw : wrap (sp0 + 2) = sp0 + 2) by (apply wrap_id; unfold MEMW in *; lia).
-      pose proof (exec_instr Cw lab m1 q r1 (LDBM 1) a1 b1 cin eq_refl Hj1 HC1 eq_refl ltac:(lia)) as U1. cbn [sem fst snd] in U1. rewrite HS1 in U1.
-      pose proof (exec_instr Cw lab m1 r1 r2 (LDAC 0) a1 sp0 cin eq_refl Hj2 HC1 I ltac:(lia)) as U2. cbn [sem fst snd] in U2. change (0 mod W) with 0 in U2.
+      pose proof (exec_instr Cw lab m1 q r1 (LDBM 1) a1 b1 (adv cin s) eq_refl Hj1 HC1 eq_refl ltac:(lia)) as U1. cbn [sem fst snd] in U1. rewrite HS1 in U1.
+      pose proof (exec_instr Cw lab m1 r1 r2 (LDAC 0) a1 sp0 (adv cin s) eq_refl Hj2 HC1 I ltac:(lia)) as U2. cbn [sem fst snd] in U2. change (0 mod W) with 0 in U2.
       assert (R3 : readable (STAI 2) 0 sp0) by (cbn [readable]; rewrite Sw; exact Sin).
-      pose proof (exec_instr Cw lab m1 r2 r3 (STAI 2) 0 sp0 cin eq_refl Hj3 HC1 R3 ltac:(lia)) as U3. cbn [sem fst snd] in U3. rewrite Sw in U3.
+      pose proof (exec_instr Cw lab m1 r2 r3 (STAI 2) 0 sp0 (adv cin s) eq_refl Hj3 HC1 R3 ltac:(lia)) as U3. cbn [sem fst snd] in U3. rewrite Sw in U3.
       set (m2 := wr m1 (sp0 + 2) 0) in *.
       assert (HC2 : Cw m2) by (apply Cm_wr; [exact HC1 | lia | intros [Hq|[Hq|Hq]]; [lia | apply tbl_addr in Hq; lia | lia]]).
       assert (H12 : rd m2 1 = sp0) by (unfold m2; rewrite rd_wr_other; [exact HS1 | lia | lia | lia]).
       assert (Hin2 : in_mem (wrap (rd m2 1 + 2)) = true) by (rewrite H12, Sw; exact Sin).
-      pose proof (exec_svc_exit Cw lab m2 r3 e1 sp0 cin Hj4 HC2 Hin2) as U4.
+      pose proof (exec_svc_exit Cw lab m2 r3 e1 sp0 (adv cin s) Hj4 HC2 Hin2) as U4.
       rewrite H12, Sw in U4. unfold m2 in U4 at 2. rewrite rd_wr_same in U4.
-      assert (Hex : exits cin (mk 0 0 0 0 m0) (map wr_ev outs ++ []) cin 0).
+      assert (Hex : exits cin (mk 0 0 0 0 m0) (outs ++ []) (adv cin s) 0).
       { eapply taus_exits; [exact Tstart|]. eapply runs_exits; [exact R1|].
         eapply taus_exits; [exact U1|]. eapply taus_exits; [exact U2|]. eapply taus_exits; [exact U3|]. exact U4. }
       rewrite app_nil_r in Hex. destruct Hex as (k & s' & Hrun). exists k. unfold isa_shows. rewrite boot_state, Hrun.
       unfold finish in Hb. inversion Hb; subst b. cbn [outputs consumed exit_value console console_input].
-      split; [rewrite writes_wr_ev, Po, app_nil_r, rev_involutive; reflexivity|]. split; [rewrite Pn; lia | reflexivity].
+      split; [rewrite writes_exit, Po, app_nil_r, rev_involutive; reflexivity|]. split; [cbn [adv console]; lia | reflexivity].
     - (* the program exits by itself *)
-      destruct R as (outs & Ex & (Po & _ & Pn)). cbn [out_rev ncons state0] in Po, Pn.
+      destruct R as (outs & Ex & (Po & Pn)). cbn [out_rev ncons input state0] in Po, Pn.
       pose proof (taus_exits cin _ _ _ _ _ Tstart Ex) as Hex. destruct Hex as (k & s' & Hrun).
       exists k. unfold isa_shows. rewrite boot_state, Hrun.
       unfold finish in Hb. inversion Hb; subst b. cbn [outputs consumed exit_value console console_input].
-      split; [rewrite writes_wr_ev, Po, app_nil_r, rev_involutive; reflexivity|]. split; [rewrite Pn; lia | reflexivity].
+      split; [rewrite writes_exit, Po, app_nil_r, rev_involutive; reflexivity|]. split; [cbn [adv console]; lia | reflexivity].
   Qed.
 End Run.
 
